@@ -649,7 +649,7 @@ func (x *Exec) run(fr *frame, blk, prev, stop *ssa.BasicBlock, phisSet bool) run
 		if blk == stop && stop != nil {
 			return runResult{pred: prev}
 		}
-		if len(x.specBlocks) > 0 && x.specBlocks[len(x.specBlocks)-1] == blk {
+		if n := len(x.specBlocks); n > 0 && x.specBlocks[n-1] == blk && !fr.info.loopHeader[blk.Index] {
 			panic(specAbort{"loop inside speculation"})
 		}
 		if fr.info.loopHeader[blk.Index] {
@@ -776,8 +776,21 @@ func (x *Exec) panicString(v Value) string {
 // cannot be merged (the caller then forks).  On success either res != nil (both arms returned; merged result)
 // or nb is the join block at which execution continues with its phis already evaluated.
 func (x *Exec) trySpeculate(fr *frame, blk *ssa.BasicBlock, c *Term, stop *ssa.BasicBlock) (res *runResult, nb *ssa.BasicBlock, done bool) {
-	if x.eng.NoSpeculation || fr.info.loopHeader[blk.Index] {
+	if x.eng.NoSpeculation {
 		return nil, nil, false
+	}
+	if fr.info.loopHeader[blk.Index] {
+		// a loop whose trip count depends on symbolic data: if-convert iteration by iteration (the body arm re-enters
+		// this header with the next guard) as long as the nesting stays small; otherwise fork
+		depth := 0
+		for _, b := range x.specBlocks {
+			if b == blk {
+				depth++
+			}
+		}
+		if depth >= 72 {
+			return nil, nil, false
+		}
 	}
 	if x.eng.noSpec(blk) {
 		return nil, nil, false
